@@ -108,7 +108,15 @@ class USBIsochronousStreamOutEndpoint(Elaboratable):
 
         sufficient_space         = (fifo.space_available >= self._max_packet_size)
 
-        okay_to_receive          = targeting_endpoint & sufficient_space
+        # Decide once per packet -- on its first byte -- whether there is room for it; re-evaluating this for
+        # every byte would truncate (but still commit) packets that arrive into a partly-full buffer, as each
+        # of the packet's own uncommitted writes reduces the space available.
+        packet_fits_latched      = Signal()
+        packet_fits              = Mux(rx_first, sufficient_space, packet_fits_latched)
+        with m.If(rx.next & rx.valid & rx_first):
+            m.d.usb += packet_fits_latched.eq(sufficient_space)
+
+        okay_to_receive          = targeting_endpoint & packet_fits
         data_is_lost             = okay_to_receive & rx.next & rx.valid & fifo.full
 
         full_packet              = rx_cnt == self._max_packet_size - 1
